@@ -144,6 +144,19 @@ def run(ctx):
                         continue
                     cases.append(ec.enforce_case([('p:x', leaf)], {'by': 'name', 'name': 'p:x'}, {}, {'a': stop, 'roles': []},
                                                  dflt=('opt', None), want='c14'))
+    # checks behind a rule: reference see the same target and credentials as anywhere else - the target
+    # may hold keys named like credential attributes, with values of any type
+    for junk in (5, None, True, 'r1', ['r1'], [5], {'r1': 1}):
+        for leaf in (ev.role('r1'), ev.generic('enabled', 'True'), ev.generic('True', ev.ph('enabled')), ev.generic('roles', 'r1'),
+                     ev.generic('user.id', ev.ph('user.id'))):
+            for shape in ('alias', 'chain', 'not_alias'):
+                rules = {'alias': [('p:x', ev.rule('p:y')), ('p:y', leaf)],
+                         'chain': [('p:x', ev.rule('p:y')), ('p:y', ev.Or(ev.F, ev.rule('p:z'))), ('p:z', leaf)],
+                         'not_alias': [('p:x', ev.Not(ev.rule('p:y'))), ('p:y', leaf)]}[shape]
+                if q and (len(shape) + len(str(junk)) + len(ev.rule_text(leaf))) % 2:
+                    continue
+                cases.append(ec.enforce_case(rules, {'by': 'name', 'name': 'p:x'}, {'roles': junk, 'enabled': junk, 'user.id': 'u1'},
+                                             {'roles': ['r1'], 'enabled': True, 'user': {'id': 'u1'}}, dflt=('opt', None), want='c14'))
     # a path never reaches INTO a scalar: attribute names of Python numbers / booleans / strings as the
     # segment after one, with right sides that spell what such an attribute would hold
     for attr in ('real', 'imag', 'numerator', 'denominator', 'real.real', '__class__.__name__', 'upper', 'keys'):
